@@ -437,13 +437,50 @@ func (p *c11) Run(rec *core.Recorder, seed uint64, idx int, tier string) {
 		depth := []int{31, 32, 33, 36, 40, 64}[r.Intn(6)]
 		srcs := map[string]string{}
 		var want strings.Builder
-		if r.Bool() {
+		switch r.Intn(4) {
+		case 0:
+			// a template that includes itself without `with`: what changes from level to level is a loop variable of the
+			// includer (a tree walk), which the included template reads like any other variable of its includer
+			srcs["tree"] = "<{{ node.name }}{% for node in node.children %}{% include 'tree' %}{% endfor %}>"
+			srcs["main"] = "{% include 'tree' %}|{{ node.name }}"
+			leaf := func(n string) map[string]interface{} {
+				return map[string]interface{}{"name": n, "children": []interface{}{}}
+			}
+			tree := map[string]interface{}{"name": "r", "children": []interface{}{
+				map[string]interface{}{"name": "a", "children": []interface{}{leaf("a1"), leaf("a2")}}, leaf("b"),
+				map[string]interface{}{"name": "c", "children": []interface{}{map[string]interface{}{"name": "c1", "children": []interface{}{leaf("c11")}}}}}}
+			rec.Eval("deep-include-chains", canonSrcs(srcs), true)
+			rec.Count("deep-include-chains", 1)
+			res := renderFresh(srcs, "main", map[string]interface{}{"node": tree}, nil)
+			wantTree := "<r<a<a1><a2>><b><c<c1<c11>>>>|r"
+			if res.Panicked || res.Err != nil || res.Out != wantTree {
+				rec.Violate("reference-model", "c11-self-include:tree", fmt.Sprintf("a template that includes itself inside a loop over the children of its node: engine gave %s (err=%v, panicked=%v), include semantics require %s", core.Q(core.Trunc(res.Out, 300)), res.Err, res.Panicked, core.Q(wantTree)), map[string]any{"templates": srcs}, res.Stack)
+			}
+			return
+		case 1:
+			// ... or a counter the includer sets before it includes itself again
+			limit := r.Range(2, 9)
+			srcs["cnt"] = "{{ depth }};{% if depth < " + fmt.Sprint(limit) + " %}{% set depth = depth + 1 %}{% include 'cnt' %}{% endif %}"
+			srcs["main"] = "{% set depth = 0 %}{% include 'cnt' %}|{{ depth }}"
+			var w strings.Builder
+			for i := 0; i <= limit; i++ {
+				fmt.Fprintf(&w, "%d;", i)
+			}
+			w.WriteString("|0")
+			rec.Eval("deep-include-chains", canonSrcs(srcs), true)
+			rec.Count("deep-include-chains", 1)
+			res := renderFresh(srcs, "main", nil, nil)
+			if res.Panicked || res.Err != nil || res.Out != w.String() {
+				rec.Violate("reference-model", "c11-self-include:counter", fmt.Sprintf("a template that sets a counter and includes itself again: engine gave %s (err=%v, panicked=%v), include semantics require %s", core.Q(core.Trunc(res.Out, 300)), res.Err, res.Panicked, core.Q(w.String())), map[string]any{"templates": srcs}, res.Stack)
+			}
+			return
+		case 2:
 			srcs["node"] = "{{ n }}:{{ title }}{{ top is defined ? '+' : '-' }};{% if n > 0 %}{% include 'node' with {'n': n - 1} %}{% endif %}"
 			srcs["main"] = "{% set top = null %}{% include 'node' with {'n': " + fmt.Sprint(depth) + "} %}"
 			for n := depth; n >= 0; n-- {
 				fmt.Fprintf(&want, "%d:T+;", n)
 			}
-		} else {
+		default:
 			for i := 0; i < depth; i++ {
 				srcs[fmt.Sprintf("t%d", i)] = fmt.Sprintf("{%% set v%d = 'V%d' %%}<{%% include 't%d' %%}>", i, i, i+1)
 			}
